@@ -110,6 +110,28 @@ let scope_line l =
   | [inc; exc; path] -> print_endline (if in_scope_flags (str_to_nats inc) (str_to_nats exc) (str_to_nats path) then "1" else "0")
   | _ -> print_endline "?"
 
+(* paths case: cwd TAB name TAB occ  (slash paths; absolute ones start with /) *)
+let seg_ids : (string, int) Hashtbl.t = Hashtbl.create 64
+let seg_names : (int, string) Hashtbl.t = Hashtbl.create 64
+let seg_id s = try Hashtbl.find seg_ids s with Not_found ->
+  let i = Hashtbl.length seg_ids + 1 in Hashtbl.replace seg_ids s i; Hashtbl.replace seg_names i s; i
+let segs_of s = List.filter_map (fun x -> if x = "" then None else Some (nat_of_int (seg_id x))) (String.split_on_char '/' s)
+let paths_line l =
+  match String.split_on_char '\t' l with
+  | [cwd; name; occ] ->
+      let show_rseg = function Up -> ".." | Seg s -> Hashtbl.find seg_names (int_of_nat s) in
+      let r =
+        if String.length name > 0 && name.[0] = '/' then
+          (match rel_to_cwd (segs_of cwd) (Abs (segs_of name)) with
+           | Relp [] -> "."
+           | Relp l -> String.concat "/" (List.map show_rseg l)
+           | Abs _ -> "?")
+        else name in
+      let parts = String.split_on_char '/' name in
+      let port = String.concat "/" (portion_after_sep parts (nat_of_int (int_of_string occ))) in
+      print_endline (r ^ "\t" ^ port)
+  | _ -> print_endline "?"
+
 let () =
   let mode = if Array.length Sys.argv > 1 then Sys.argv.(1) else "engine" in
   try
@@ -121,6 +143,7 @@ let () =
          | "enginespec" -> engine_line true l
          | "diag" -> diag_line l
          | "scope" -> scope_line l
+         | "paths" -> paths_line l
          | _ -> failwith "unknown mode")
     done
   with End_of_file -> ()
